@@ -15,6 +15,29 @@ META = dict(
 )
 
 
+def replay(ctx, binp, cases, nontrivial, keep=5):
+    """ctx.replay_behaviours, but at most `keep` violation files (one wrong rule breaks thousands of cases)"""
+    inp = ctx.write_ndjson("cases_TestVerifC28.ndjson", cases)
+    recs, out, rc = ctx.go_run(binp, "TestVerifC28", pkg="ipns", infile=inp, mode="replay", timeout=1200)
+    summ = [r for r in recs if r.get("summary")]
+    if rc != 0 or not summ or summ[-1].get("n") != len(cases):
+        ctx.save_text("replay_cases_driver.out", out[-20000:])
+        ctx.broken("replay driver died or was incomplete (rc=%s, summary=%s): %s" % (rc, summ[-1:], out[-1500:]))
+        return None
+    bad = [r for r in recs if r.get("ok") is False]
+    for r in bad[:keep]:
+        ctx.violation("case #%s: %s" % (r.get("i"), r.get("what")), dict(case=cases[r["i"]], disagreement=r))
+    if len(bad) > keep:
+        ctx.log("... and %d more disagreeing cases" % (len(bad) - keep))
+    ctx.cov["traces_validated_against_impl"] += len(cases)
+    ctx.cov["evaluations"] += len(cases)
+    for c in cases:
+        if nontrivial(c):
+            ctx.nontrivial(c)
+    ctx.sample(cases[len(cases) // 2])
+    return bad
+
+
 def run(ctx):
     ctx.assumptions += ["inputs are '/'-joined sequences over the 19-token alphabet (namespaces, CIDs in 4 encodings, peer ids, "
                         "dots, empty segments, unicode, spaces)",
@@ -36,8 +59,7 @@ def run(ctx):
         if c["k"] in ("p", "u"):
             return c["p"]["ok"] and ["e"] + c["p"]["segs"] != c["t"][:len(c["p"]["segs"]) + 1]
         return c["k"] == "n" and len(c["es"]) >= 2
-    if ctx.replay_behaviours(binp, "TestVerifC28", "ipns", cases, name="cases", nontrivial=nontrivial,
-                             timeout=1200) is None:
+    if replay(ctx, binp, cases, nontrivial) is None:
         return
     acc = sum(1 for c in cases if c["k"] in ("p", "u") and c["p"]["ok"])
     ctx.log("cases=%d accepted paths=%d names=%d" % (len(cases), acc, sum(1 for c in cases if c["k"] == "n")))
